@@ -10,3 +10,4 @@ import Rp2.Props.C07
 #print axioms Rp2.C07.model_balances_reconcile_with_lots_to_date
 #print axioms Rp2.C07.source_balance_loop_is_model
 #print axioms Rp2.C07.source_replay_order_and_cut
+#print axioms Rp2.C07.source_balance_loop_with_break_is_model
